@@ -878,8 +878,17 @@ def runOp (sc : Scen) (j : Json) : P Json := do
     pure (Json.mkObj [("results", .arr (r.2.map fun (v : Nat) => (Json.num v : Json)).toArray),
                       ("order", .arr ((Cache.lruKeys r.1).map fun (k : Nat) => (Json.num k : Json)).toArray)])
   | "reach" =>
-    -- observed on the implementation only (handlers inside positions of undeclared type are outside the model)
-    pure (Json.mkObj [("skip", .bool true)])
+    -- `into_data(val[, ty], custom=H)` with containers of undeclared element type: the handlers the container converters
+    -- were built with answer for the elements' runtime types (`Ext.elemHook`)
+    let H ← parseHandlers (jfieldD j "handlers" .null)
+    let E' : Ext := { E with elemHook := fun v => (H.answer v.typeName 0).map fun cid => E.customInto cid v }
+    let v ← parseVal (← jfield j "val")
+    match jfieldD j "ty" .null with
+    | .null => pure (exceptJson (dynElem E' (dynOf sc E') v))
+    | tj =>
+      match makeConverter sc.env H (← parseTy tj) with
+      | .error e => pure (buildErrJson e)
+      | .ok c => pure (exceptJson (intoC E' (dynOf sc E') c v))
   | "into_dyn" =>
     let v ← parseVal (← jfield j "val")
     pure (exceptJson (dynOf sc E v))
